@@ -247,36 +247,29 @@ def brackets(in_file, in_encoding, **params):
                         # close sentence
                         queue[0].data['sid'] = cnt
                         cnt += 1
+                        if 'disco' in params and params['disco']:
+                            # the lexer has consumed nothing beyond the closing
+                            # bracket: the rest of the line is TAB + sentence
+                            rest = stream.readline().rstrip("\r\n")
+                            if not rest.startswith("\t"):
+                                raise ValueError("no sentence after tree")
+                            tokens = rest[1:].split(" ")
+                            terms = trees.terminals(queue[0])
+                            indices = [int(terminal.data['word']) for terminal in terms]
+                            if sorted(indices) != list(range(1, len(tokens) + 1)):
+                                raise ValueError("terminal indices do not match sentence")
+                            if 'disco_reordered' in params:
+                                for terminal in terms:
+                                    terminal.data['word'] = terminal.data['word'] + "-" \
+                                        + tokens[int(terminal.data['word']) - 1]
+                            else:
+                                for terminal in terms:
+                                    terminal.data['num'] = int(terminal.data['word'])
+                                    terminal.data['word'] = tokens[terminal.data['num'] - 1]
                         if 'replace_parens' in params:
                             for subtree in trees.preorder(queue[0]):
                                 subtree = trees.replace_chars(subtree,
                                                               trees.BRACKETS)
-                        if 'disco' in params and params['disco']:
-                            terminalmap = {}
-                            for terminal in trees.terminals(queue[0]):
-                                terminalmap[int(terminal.data['word'])] = terminal
-                            tokenmap = defaultdict(int)
-                            position = 1
-                            try:
-                                lextoken, lexclass = next(lexer)
-                            except StopIteration:
-                                raise ValueError("no sentence after tree")
-                            try:
-                                while lextoken != "\n":
-                                    lextoken, lexclass = next(lexer)
-                                    if lextoken != ' ':
-                                        tokenmap[position] = lextoken
-                                        position += 1
-                            except StopIteration:
-                                pass
-                            if 'disco_reordered' in params:
-                                for terminal in trees.terminals(queue[0]):
-                                    terminal.data['word'] = terminal.data['word'] + "-" \
-                                        + tokenmap[terminal.data['num']]
-                            else:
-                                for terminal in trees.terminals(queue[0]):
-                                    terminal.data['num'] = int(terminal.data['word']) + 1
-                                    terminal.data['word'] = tokenmap[terminal.data['num']]
                         yield queue[0]
                         term_cnt = 1
                         queue = []
